@@ -2102,3 +2102,50 @@ def distinct_loop_lines(tree: ast.Module) -> None:
             else:
                 visit(c, enclosing)
     visit(tree, [])
+
+
+def renamed_private_anchors(trees: Dict[str, ast.Module]) -> None:
+    """A private definition the rules address by name (sfa/private_anchors.json: where it lives on the confirmed tree) that is missing from its
+    class / module, while exactly one new private definition with the same number of parameters appeared there: the definition was renamed.
+    It gets its old name back (definition and every reference in the package) so that the rules find it; nothing else changes."""
+    import json
+    import os
+    from .normalize import anchors
+    try:
+        with open(os.path.join(os.path.dirname(os.path.abspath(__file__)), "private_anchors.json")) as f:
+            table = json.load(f)
+    except (OSError, ValueError):
+        return
+    anch = anchors()
+    known_names = set(table)
+    for name, homes in table.items():
+        for h in homes:
+            t = trees.get(h["module"])
+            if t is None:
+                continue
+            container: Optional[List[ast.stmt]] = t.body
+            if h["class"] is not None:
+                cds = [x for x in t.body if isinstance(x, ast.ClassDef) and x.name == h["class"]]
+                if len(cds) != 1:
+                    continue
+                container = cds[0].body
+            defs = [x for x in container if isinstance(x, ast.FunctionDef)]
+            if any(x.name == name for x in defs):
+                continue
+            cands = [x for x in defs if x.name.startswith("_") and not x.name.startswith("__") and x.name not in anch and x.name not in known_names
+                     and len(x.args.posonlyargs + x.args.args + x.args.kwonlyargs) == h["nparams"]]
+            if len(cands) != 1:
+                continue
+            old = cands[0].name
+            # the old name must be free in the package
+            if any((isinstance(n, ast.Name) and n.id == name) or (isinstance(n, ast.Attribute) and n.attr == name) for tt in trees.values() for n in ast.walk(tt)):
+                continue
+            cands[0].name = name
+            for tt in trees.values():
+                for n in ast.walk(tt):
+                    if h["class"] is None and isinstance(n, ast.Name) and n.id == old:
+                        n.id = name
+                    elif isinstance(n, ast.Attribute) and n.attr == old:
+                        n.attr = name
+                    elif isinstance(n, ast.alias) and n.name == old and h["class"] is None:
+                        n.name = name
